@@ -531,8 +531,19 @@ where
                                              the children of this element are not slots.",
                                         )
                                     });
+                                } else if slots.is_some() {
+                                    HANDLER.with(|handler| {
+                                        handler.span_err(
+                                            jsx_attr.span,
+                                            "`v-slots` can only be given once: \
+                                             merge the slots into one value.",
+                                        )
+                                    });
                                 }
-                                slots = expr;
+                                // (a value-less `v-slots` doesn't discard an earlier value)
+                                if expr.is_some() {
+                                    slots = expr;
+                                }
                             }
                         }
                     }
